@@ -528,10 +528,18 @@ Definition ir_step (acc : list prop_ir * st) (x : relem) : list prop_ir * st :=
 Definition type_expr (t : option str) : node :=
   match t with Some n => Ident n 0 false | None => Null end.
 
+(* f64::to_string of the JSON number text: `1.0` prints as `1`; other texts are kept *)
+Definition num_to_string (v : str) : str :=
+  match split_on 46 v with
+  | [i; [48]] => i
+  | _ => v
+  end.
+
 Definition default_matches (name key : node) : bool :=
   pname_eqb name key ||
   match name, key with
   | IdName a, Str b _ | Str a _, IdName b => str_eqb a b
+  | Num n _, Str b _ | Str b _, Num n _ => str_eqb (num_to_string n) b
   | _, _ => false
   end.
 
